@@ -51,14 +51,17 @@ theorem step_second {p : Params} (hp : DxParams p) (dflt : Nat) (st st' : State)
       · simp at h; obtain ⟨rfl, rfl⟩ := h
         simp [secondDecl, regAnnot, withSet, step, hss]
       · rename_i k'
-        simp [hba, hreq] at h
+        -- since fix 774c0b4: `match registerType k` comes first; a kind without a register class is left unbound
         split at h
-        · rename_i r hr
+        · rename_i hr
           simp at h; obtain ⟨rfl, rfl⟩ := h
+          simp [secondDecl, regAnnot, withSet, step, hss, hr]
+        · rename_i r hr
+          simp [hba, hreq] at h
+          obtain ⟨rfl, rfl⟩ := h
           simp only [secondDecl, regAnnot, withSet]
           have := rereadSet_reg r (st.used.get (s.getD dflt)) (s.getD dflt)
           simp [step, hss, hba, hreq, hr, Counter.bump, this]
-        · simp at h
 
 theorem run_second {p : Params} (hp : DxParams p) (dflt : Nat) : ∀ (ds : List Decl) (st st' : State)
     (bs : List (Option Binding)), run p dflt st ds = .ok (st', bs) → run p 0 st (secondDecls ds bs) = .ok (st', bs)
